@@ -1112,6 +1112,7 @@ func RepeatCR3(o RepeatOpts) []byte {
 // 3: an XMP packet with n date properties whose value is a date followed by junk bytes
 // 4: a CR3 with n minimal CMT boxes; 5: a JPEG with n minimal Exif segments; 6: an XMP array of n items
 // 9: an AVIF meta box with n iprp/iref boxes too short for a child; 10: an XMP id/date/number property with n items
+// 11: an AVIF meta box with a large iloc box in front of n empty iinf boxes
 func ManyTiny(kind, sub, n, junk int) []byte {
 	switch kind {
 	case 0:
@@ -1181,6 +1182,28 @@ func ManyTiny(kind, sub, n, junk int) []byte {
 		typ := []string{"iprp", "iref"}[sub%2]
 		one := Box(typ, make([]byte, 8+4*(sub/2%2)))
 		inner := make([]byte, 0, len(one)*n)
+		for i := 0; i < n; i++ {
+			inner = append(inner, one...)
+		}
+		out := Box("ftyp", []byte("avif"), be32(0), []byte("avifmif1"))
+		out = append(out, fullBox("meta", 0, 0, inner)...)
+		return append(out, Box("mdat", make([]byte, 64))...)
+	case 11:
+		// an AVIF-branded file whose meta box holds one iloc box with min(n, 65535) six-byte entries
+		// in front of n empty iinf boxes (iloc first is the order libavif writes): what is kept of
+		// the first must not be walked again for each of the others
+		k := n
+		if k > 65535 {
+			k = 65535
+		}
+		items := make([]byte, 0, 6*k)
+		for i := 0; i < k; i++ {
+			items = append(items, be16(uint16(i+1))...)
+			items = append(items, be16(0)...)
+			items = append(items, be16(0)...)
+		}
+		inner := fullBox("iloc", 0, 0, []byte{0x00, 0x00}, be16(uint16(k)), items)
+		one := fullBox("iinf", 0, 0, be16(0))
 		for i := 0; i < n; i++ {
 			inner = append(inner, one...)
 		}
